@@ -478,7 +478,7 @@ theorem spec_trailing (F : FloatOps) (pre : List Pat) (r : Option Name) (hs : Sp
   rw [mPat_trailing F true il pre r a ρ (.tmp v) (hr.container ρ)]
   simp only [Src.rd, Decl]
   cases hv : view v with
-  | none => simp [sizeCheck, view_none_size hv hnr]
+  | none => cases hc : C.sizeNullJumps <;> simp [sizeCheck, view_none_size hv hnr, hc]
   | some w =>
     obtain ⟨xs, sl⟩ := w
     simp only [sizeCheck, view_size hv, if_true, Nat.add_sub_cancel]
@@ -492,7 +492,7 @@ theorem spec_trailing (F : FloatOps) (pre : List Pat) (r : Option Name) (hs : Sp
         have hj : j < xs.length := by simp at h; omega
         simpa [List.getElem_take] using view_index hv j hj
       have sp := hs v 0 false ρ (xs.take pre.length) hlen hidx (noRangeL_take _ _ (view_noRange hv hnr))
-      have hsl := view_sliceFrom hv pre.length hl
+      have hsl := view_sliceFrom (C := C) hv pre.length hl
       refine ⟨?_, ?_, ?_⟩
       · rintro β ⟨xs', sl', a', mid, b, β₁, β₂, hv', hx, _, h1, h2, rfl⟩
         simp only [Option.some.injEq, Prod.mk.injEq] at hv'
@@ -556,7 +556,7 @@ theorem spec_leading (F : FloatOps) (post : List Pat) (r : Option Name) (hpost :
   simp only [Src.rd, Decl]
   have hq : 0 < post.length := by cases post <;> simp_all
   cases hv : view v with
-  | none => simp [sizeCheck, view_none_size hv hnr]
+  | none => cases hc : C.sizeNullJumps <;> simp [sizeCheck, view_none_size hv hnr, hc]
   | some w =>
     obtain ⟨xs, sl⟩ := w
     simp only [sizeCheck, view_size hv, if_true, Nat.add_sub_cancel_left]
@@ -572,7 +572,7 @@ theorem spec_leading (F : FloatOps) (post : List Pat) (r : Option Name) (hpost :
         rw [e1, view_index_neg hv (post.length - j) (by omega) (by omega)]
         simp only [List.getElem_drop]
         congr 2; omega
-      have hsl := view_sliceTo hv post.length hq hl
+      have hsl := view_sliceTo (C := C) hv post.length hq hl
       have key : ∀ ρ1 : Env, _ := fun ρ1 =>
         hs v (-(post.length : Int)) (if C.nestedLast then il else true) ρ1 (xs.drop (xs.length - post.length)) hlen hidx
           (noRangeL_drop _ _ (view_noRange hv hnr))
@@ -892,9 +892,10 @@ theorem specN_exact (F : FloatOps) (pre : List Pat) (hpre : pre ≠ []) (hs : Sp
     SpecN F C (.seq pre none []) := by
   intro a ρ v hr hnr
   rw [mPat_exact F false true pre a ρ (.tmp v) hpre (hr.container ρ)]
+  simp only [ite_self]
   simp only [Src.rd, Decl]
   cases hv : view v with
-  | none => simp [sizeCheck, view_none_size hv hnr]
+  | none => cases hc : C.sizeNullJumps <;> simp [sizeCheck, view_none_size hv hnr, hc]
   | some w =>
     obtain ⟨xs, sl⟩ := w
     simp only [sizeCheck, view_size hv, Bool.false_eq_true, if_false]
@@ -933,9 +934,10 @@ theorem specN_trailing (F : FloatOps) (pre : List Pat) (r : Option Name) (hs : S
     (hns : noSeqL pre = true) : SpecN F C (.seq pre (some r) []) := by
   intro a ρ v hr hnr
   rw [mPat_trailing F false true pre r a ρ (.tmp v) (hr.container ρ), mPats_false_eq F pre _ _ _ hns]
+  simp only [ite_self]
   simp only [Src.rd, Decl]
   cases hv : view v with
-  | none => simp [sizeCheck, view_none_size hv hnr]
+  | none => cases hc : C.sizeNullJumps <;> simp [sizeCheck, view_none_size hv hnr, hc]
   | some w =>
     obtain ⟨xs, sl⟩ := w
     simp only [sizeCheck, view_size hv, if_true, Nat.add_sub_cancel]
@@ -949,7 +951,7 @@ theorem specN_trailing (F : FloatOps) (pre : List Pat) (r : Option Name) (hs : S
         have hj : j < xs.length := by simp at h; omega
         simpa [List.getElem_take] using view_index hv j hj
       have sp := hs v 0 false ρ (xs.take pre.length) hlen hidx (noRangeL_take _ _ (view_noRange hv hnr))
-      have hsl := view_sliceFrom hv pre.length hl
+      have hsl := view_sliceFrom (C := C) hv pre.length hl
       refine ⟨?_, ?_⟩
       · rintro β ⟨xs', sl', a', mid, b, β₁, β₂, hv', hx, _, h1, h2, rfl⟩
         simp only [Option.some.injEq, Prod.mk.injEq] at hv'
@@ -1000,10 +1002,11 @@ theorem specN_leading (F : FloatOps) (post : List Pat) (r : Option Name) (hpost 
     (hs : SpecNL F C post) : SpecN F C (.seq [] (some r) post) := by
   intro a ρ v hr hnr
   rw [mPat_leading F false true post r a ρ (.tmp v) hpost (hr.container ρ)]
+  simp only [ite_self]
   simp only [Src.rd, Decl]
   have hq : 0 < post.length := by cases post <;> simp_all
   cases hv : view v with
-  | none => simp [sizeCheck, view_none_size hv hnr]
+  | none => cases hc : C.sizeNullJumps <;> simp [sizeCheck, view_none_size hv hnr, hc]
   | some w =>
     obtain ⟨xs, sl⟩ := w
     simp only [sizeCheck, view_size hv, if_true, Nat.add_sub_cancel_left]
@@ -1019,7 +1022,7 @@ theorem specN_leading (F : FloatOps) (post : List Pat) (r : Option Name) (hpost 
         rw [e1, view_index_neg hv (post.length - j) (by omega) (by omega)]
         simp only [List.getElem_drop]
         congr 2; omega
-      have hsl := view_sliceTo hv post.length hq hl
+      have hsl := view_sliceTo (C := C) hv post.length hq hl
       have key : ∀ ρ1 : Env, _ := fun ρ1 =>
         hs v (-(post.length : Int)) ρ1 (xs.drop (xs.length - post.length)) hlen hidx
           (noRangeL_drop _ _ (view_noRange hv hnr))
@@ -1200,7 +1203,7 @@ theorem frame_pat (F : FloatOps) : ∀ (p : Pat) (la il : Bool) (a : Acc) (ρ : 
     · rename_i s _
       split
       · exact Agree.refl _ _
-      · have h := frame_ents es s ρ
+      · have h := frame_ents (C := C) es s ρ
         simp only [patVars]
         split
         · rename_i ρ1 hr
@@ -1223,7 +1226,7 @@ theorem frame_pat (F : FloatOps) : ∀ (p : Pat) (la il : Bool) (a : Acc) (ρ : 
         · split
           · trivial
           · exact Agree.refl _ _
-          · exact (frame_pats F pre la s 0 true ρ).mono hpre
+          · exact (frame_pats F pre la s 0 _ ρ).mono hpre
     | some r =>
       simp only [mPat]
       split
@@ -1262,7 +1265,7 @@ theorem frame_pat (F : FloatOps) : ∀ (p : Pat) (la il : Bool) (a : Acc) (ρ : 
                       simp only [Except.map] at hρ1
                       cases hρ1
                       exact (Agree.refl _ ρ).set x w (by simp [patVars])
-                exact Within.trans h1 ((frame_pats F post la s _ true ρ1).mono hpost)
+                exact Within.trans h1 ((frame_pats F post la s _ _ ρ1).mono hpost)
 theorem frame_pats (F : FloatOps) : ∀ (ps : List Pat) (la : Bool) (s : Src) (i : Int) (lf : Bool) (ρ : Env),
     Within (patsVars ps) ρ (mPats F C la ps s i lf ρ)
   | [], _, _, _, _, ρ => by simp [mPats, Within, Agree.refl]
